@@ -11,6 +11,7 @@ import (
 	"verif/kit"
 
 	"github.com/mycoria/mycoria/frame"
+	"github.com/mycoria/mycoria/state"
 )
 
 // Signed frames across the life of the receiving session: deliveries of three
@@ -169,7 +170,11 @@ func encryptedLifecycle(t *testing.T, rep *kit.Report, env kit.Env) {
 	if env.Thorough() {
 		depth = 5
 	}
-	alphabet := []string{"r0", "r1", "p0", "p1", "kx-client-start", "idle-61s+cleaner", "reset-encryption"}
+	alphabet := []string{"r0", "r1", "p0", "p1", "kx-client-start", "idle-61s+cleaner", "reset-encryption",
+		// key exchanges on the live session that FAIL half way (the keys stay, so the windows must stay):
+		// a peer offering a low-order X25519 point (accepted as a key, refused by the ECDH step),
+		// an unknown exchange type, a short key; as server and as client completing its own request.
+		"kx-server-fails(low-order-point)", "kx-server-fails(unknown-type)", "kx-server-fails(short-key)", "kx-client-complete-fails(low-order-point)"}
 	k := len(alphabet)
 	word := make([]int, depth)
 	var evals, nontrivial, transitions int64
@@ -216,6 +221,27 @@ func encryptedLifecycle(t *testing.T, rep *kit.Report, env kit.Env) {
 					case "kx-client-start":
 						if sb := b.State().GetSession(a.Identity().IP); sb != nil && sb.Encryption() != nil {
 							_, _, _ = sb.Encryption().InitKeyClientStart()
+						}
+						since = append(since, ev)
+					case "kx-server-fails(low-order-point)", "kx-server-fails(unknown-type)", "kx-server-fails(short-key)", "kx-client-complete-fails(low-order-point)":
+						if sb := b.State().GetSession(a.Identity().IP); sb != nil && sb.Encryption() != nil {
+							// a genuine offer gives the type name; the key is replaced.
+							_, kxType, _ := state.NewEncryptionSession().InitKeyClientStart()
+							var err error
+							switch ev {
+							case "kx-server-fails(low-order-point)":
+								_, _, err = sb.Encryption().InitKeyServer(make([]byte, 32), kxType)
+							case "kx-server-fails(unknown-type)":
+								_, _, err = sb.Encryption().InitKeyServer(make([]byte, 32), kxType+"-x")
+							case "kx-server-fails(short-key)":
+								_, _, err = sb.Encryption().InitKeyServer(make([]byte, 31), kxType)
+							default:
+								_, _, _ = sb.Encryption().InitKeyClientStart()
+								err = sb.Encryption().InitKeyClientComplete(make([]byte, 32), kxType)
+							}
+							if err == nil {
+								panic("harness: key exchange with a degenerate offer succeeded: " + ev)
+							}
 						}
 						since = append(since, ev)
 					case "idle-61s+cleaner":
